@@ -237,8 +237,13 @@ class Lib:
         try:
             return point.strftime(fmt)
         except ValueError:
-            from metomi.isodatetime.datetimeoper import DateTimeOperator
-            return DateTimeOperator.get_datetime_strftime(point, fmt)
+            # the datetime-library fallback, written out over the data model's public accessors (not through
+            # datetimeoper, which is the code under check): the civil calendar date and time of day of the point
+            from datetime import datetime
+            year, month, day = point.get_calendar_date()
+            hour, minute, second = point.get_hour_minute_second()
+            return datetime(year, month, day, int(hour), int(minute), int(second),
+                            int(1.0e6 * (second - int(second)))).strftime(fmt)
 
     def parse_point(self, item):
         if item == "ref":
@@ -593,6 +598,35 @@ def gen_cases(rng, tier, boost):
             yield Case([item], print_format=fmt, local_tz=(0, 0), spell_seed=rng.getrandbits(30))
             yield Case([item], offsets1=["P1M"], print_format=fmt, utc=True, local_tz=(0, 0),
                        spell_seed=rng.getrandbits(30))
+
+
+    # fallback print formats on week and ordinal dates around a year end (where the week year, the ordinal year and
+    # the calendar year of one day differ), also as shifted points and as recurrence points
+    fallbacks = ["%a %b %d %H:%M:%S %Y", "%A %d %B %y", "%y-%m-%d %a", "%d %b %Y", "%c", "%x", "%b %e %Y"]
+    for _ in range(40 * boost if tier == "quick" else 300 * boost):
+        y = rng.choice([1998, 2003, 2004, 2008, 2009, 2015, 2019, 2020, 2021, 2026, rng.randint(1000, 9000)])
+        kind = rng.random()
+        if kind < 0.5:
+            w = rng.choice([1, 1, 52, 53])
+            if w == 53 and oracle.weeks_in_year("greg", y) < 53:
+                w = 52
+            item = rng.choice(["%04d-W%02d-%dT%02d:00:00Z", "%04dW%02d%dT%02d0000Z"]) % (y, w, rng.randint(1, 7),
+                                                                                      rng.randint(0, 23))
+        elif kind < 0.8:
+            item = "%04d-%03dT%02d:30:00Z" % (y, rng.choice([1, 2, 364, 365, oracle.year_len("greg", y)]),
+                                             rng.randint(0, 23))
+        else:
+            item = "%04d-%02d-%02dT12:00:00Z" % (y, rng.choice([1, 12]), rng.choice([1, 2, 30, 31]))
+        fmt = rng.choice(fallbacks)
+        r = rng.random()
+        kw = dict(local_tz=(0, 0), spell_seed=rng.getrandbits(30), print_format=fmt,
+                  calendar=rng.choice([None, None, "gregorian"]))
+        if r < 0.5:
+            yield Case([item], **kw)
+        elif r < 0.8:
+            yield Case([item], offsets1=[rng.choice(["P1D", "-P1D", "P3D", "-P1W", "PT12H"])], **kw)
+        else:
+            yield Case(["R3/%s/%s" % (item, rng.choice(["P1D", "P2D", "P1W"]))], **kw)
 
 
 class CliOp(Op):
